@@ -370,6 +370,28 @@ def namelen(ctx: Any) -> List[Ob]:
     for st in sts:
         k = _xn(dl, st.targets[0].slice)
         obs.append(ob(R, dl, st, 'a name decoded on a cache miss is stored under the offset it was looked up with', k in keys_get, f'stored under `{norm(st.targets[0].slice)}` but looked up with {sorted(keys_get)}'))
+    # a miss is told from a hit by identity: the memoised value of the root name is the EMPTY label list, which a truthiness
+    # test takes for a miss -- the chain behind it is then chased again on every use and a valid datagram whose names end in
+    # pointers to the root runs into the pointer limit (work budget / agreement with a strict parser)
+    dcfg = cfg_of(dl.node)
+    for g_ in gets:
+        # the local the lookup result is bound to, and the tests of it
+        tgt = [st.targets[0].id for st in walk_local_ordered(dl.node) if isinstance(st, ast.Assign) and st.value is g_ and isinstance(st.targets[0], ast.Name)]
+        tests = []
+        for t in dcfg.nodes:
+            if t.kind != 'test' or t.ast is None:
+                continue
+            e = t.ast
+            while isinstance(e, ast.UnaryOp) and isinstance(e.op, ast.Not):
+                e = e.operand
+            if (isinstance(e, ast.Name) and e.id in tgt) or e is g_ or (isinstance(e, ast.NamedExpr) and e.value is g_):
+                tests.append((t, 'truthiness'))
+            elif isinstance(e, ast.Compare) and len(e.ops) == 1 and isinstance(e.ops[0], (ast.Is, ast.IsNot)):
+                sides = [e.left, e.comparators[0]]
+                if any(norm(x) == 'None' for x in sides) and any((isinstance(x, ast.Name) and x.id in tgt) or x is g_ or (isinstance(x, ast.NamedExpr) and x.value is g_) for x in sides):
+                    tests.append((t, 'identity'))
+        bad_t = [t for t, kind in tests if kind == 'truthiness']
+        obs.append(ob(R, dl, bad_t[0].ast if bad_t else (tests[0][0].ast if tests else g_), 'a miss of the name memo is recognised by `is None` (the memoised root name is an empty list and must count as a hit)', bool(tests) and not bad_t, 'the memo result is tested for truth: an empty label list (the root name) is taken for a miss' if bad_t else ('' if tests else 'no test of the memo result found')))
     return obs
 
 
